@@ -202,6 +202,23 @@ class C10Bounded(Bounded):
                     for how, q in (("in one collection", q1), ("converted one after the other", q2)):
                         if q != alone[d["name"]]:
                             fail("history", f"correlation rule {d['title']} {how} on one backend in the order {[x['title'] for x in perm]} gives {q!r}, alone on a fresh backend {alone[d['name']]!r}", [[x["title"] for x in perm], d["title"], how])
+            # ... temporal rules with and without an extended condition on one backend (the conversion method is chosen per rule)
+            multi2 = [{"title": "E", "name": "ce", "correlation": {"type": "temporal", "timespan": "5m", "group-by": ["u"], "condition": "n and not m"}},
+                      {"title": "F", "name": "cf", "correlation": {"type": "temporal", "rules": [REF["n"], REF["m"]], "timespan": "5m", "group-by": ["u"]}},
+                      {"title": "G", "name": "cg", "correlation": {"type": "temporal_ordered", "rules": [REF["n"], REF["m"]], "timespan": "5m", "group-by": ["u"]}},
+                      {"title": "H", "name": "ch", "correlation": {"type": "temporal_ordered", "timespan": "5m", "group-by": ["u"], "condition": "m or n"}}]
+            alone2 = {d["name"]: corr_queries([d], TextQueryTestBackend())[0] for d in multi2}
+            for perm in itertools.permutations(multi2):
+                ev_n += 1
+                nontriv += 1
+                b = TextQueryTestBackend()
+                try:
+                    again = [corr_queries([d], b)[0] for d in perm]
+                except Exception as e:
+                    again = [f"{type(e).__name__}: {e}"] * len(perm)
+                for d, q2 in zip(perm, again):
+                    if q2 != alone2[d["name"]]:
+                        fail("history-extended", f"correlation rule {d['title']} converted after {[x['title'] for x in perm[:perm.index(d)]]} on one backend gives {q2!r}, alone on a fresh backend {alone2[d['name']]!r}", [[x["title"] for x in perm], d["title"]])
         except SigmaError as e:
             fail("history-error", f"several correlation rules on one backend: {type(e).__name__}: {e}", ["multi"])
         # the timespan in seconds (rendered by backends that express windows in seconds): count x unit length, exact integers - the mean
